@@ -143,6 +143,7 @@ func (r *remoteReplicator) IsReady() bool {
 		r.logger.Warn("follower node is offline, need suspend replicator", logger.String("replicator", r.String()))
 
 		r.rwMutex.Unlock() // unlock
+		verifhook.Yield("c08-offline-seen")
 		if r.isSuspend.CompareAndSwap(false, true) {
 			r.statistics.FollowerOffline.Incr()
 			r.state.Store(&state{state: models.ReplicatorFailureState, errMsg: "follower node is offline"})
